@@ -171,7 +171,7 @@ func TestC17(t *testing.T) {
 		}
 	}
 	nFlow := len(cases)
-	nPubrel := 24
+	nPubrel := 24 + 2*len(c17between)
 	total := nFlow + nPubrel
 	if !r.Thorough() {
 		// quick: every 3rd pair case, all singles/runs (PRNG-free, deterministic subset)
@@ -297,11 +297,94 @@ func TestC17(t *testing.T) {
 			r.Sample(map[string]interface{}{"flow": fl.name, "retry_count": cse.rc, "faults": fmt.Sprint(cse.fs), "expected_success": want, "returned": fmt.Sprint(callErr), "trace_tail": world.Strings(evs[max0(len(evs)-10):], 0)})
 		}
 	})
-	r.Finish(fmt.Sprintf("real client library against a scripted, always-answering gateway over a faulty in-memory link, virtual time. Flows: Publish QoS 1/2 (short and registered topic), Subscribe (string, wildcard), Register, Unsubscribe, Publish QoS 0/-1; RetryCount 1 and 2, RetryDelay 10 s. Fault plans per flow: none; every single drop of the first RetryCount+2 occurrences of each datagram type in each direction; single duplications; all pairs of those (quick: one third of the pairs, chosen by seed); runs of 1..RetryCount+1 consecutive losses of each request - %d cases; + %d PUBREL cases (inbound QoS 2: PUBREL first / duplicated / re-sent after the exchange finished, must each be answered by PUBCOMP with the same ID). Oracle: the call returns nil exactly when the reference simulation says an acknowledgement reached the client within RetryCount retransmissions per phase; every retransmission repeats the message ID (and content) and PUBLISH/SUBSCRIBE retransmissions carry DUP=1; at most RetryCount+1 transmissions.", nFlow, nPubrel), nil)
+	r.Finish(fmt.Sprintf("real client library against a scripted, always-answering gateway over a faulty in-memory link, virtual time. Flows: Publish QoS 1/2 (short and registered topic), Subscribe (string, wildcard), Register, Unsubscribe, Publish QoS 0/-1; RetryCount 1 and 2, RetryDelay 10 s. Fault plans per flow: none; every single drop of the first RetryCount+2 occurrences of each datagram type in each direction; single duplications; all pairs of those (quick: one third of the pairs, chosen by seed); runs of 1..RetryCount+1 consecutive losses of each request - %d cases; + %d PUBREL cases (inbound QoS 2: PUBREL first / duplicated / re-sent after the exchange finished, or held back while the application makes another call - Unsubscribe/Register/Subscribe of the very topic, Publish QoS 2, Ping - must each be answered by PUBCOMP with the same ID). Oracle: the call returns nil exactly when the reference simulation says an acknowledgement reached the client within RetryCount retransmissions per phase; every retransmission repeats the message ID (and content) and PUBLISH/SUBSCRIBE retransmissions carry DUP=1; at most RetryCount+1 transmissions.", nFlow, nPubrel), nil)
 }
 
 // c17pubrel: broker-initiated QoS 2 towards the client library; PUBREL variants.
+// c17between: API calls the application makes between the client's PUBREC and the gateway's PUBREL.
+var c17between = []struct {
+	name string
+	f    func(cl *client.Client, topic string) error
+}{
+	{"Unsubscribe(topic)", func(cl *client.Client, topic string) error { return cl.Unsubscribe(topic) }},
+	{"Unsubscribe(#)", func(cl *client.Client, topic string) error { return cl.Unsubscribe("#") }},
+	{"Register(topic)", func(cl *client.Client, topic string) error { return cl.Register(topic) }},
+	{"Register(other)", func(cl *client.Client, topic string) error { return cl.Register("o/ther") }},
+	{"Subscribe(topic)", func(cl *client.Client, topic string) error {
+		return cl.Subscribe(topic, 1, func(*client.Client, string, *p1.Publish) {})
+	}},
+	{"Publish(QoS2)", func(cl *client.Client, topic string) error { return cl.Publish("cd", []byte("x"), 2, false) }},
+	{"Ping", func(cl *client.Client, topic string) error { return cl.Ping() }},
+}
+
+// c17pubrelBetween: the gateway's PUBREL is held back while the application makes another API call.
+func c17pubrelBetween(t *testing.T, r *rt.Run, c *rt.Case, k int) {
+	bt := c17between[k%len(c17between)]
+	named := k/len(c17between) == 0
+	topic := "ab"
+	if named {
+		topic = "x/y"
+	}
+	c.Desc = fmt.Sprintf("inbound QoS2 on %q; %s between PUBREC and PUBREL", topic, bt.name)
+	var evs []world.Ev
+	var callErr error
+	bubble(t, func() {
+		tr := world.NewTrace()
+		sg := newSimpleGw()
+		sg.HoldPubrel = true
+		g := world.NewGwPeer(tr, 0, sg.handler())
+		cl := newClientOn(g.Link.A, stdClientCfg("cl"))
+		cl.Dial("mem")
+		cl.Connect()
+		cl.Subscribe("#", 2, cbRecorder(tr, 0, "#"))
+		if named {
+			// the application knows the topic by name too
+			cl.Subscribe(topic, 2, cbRecorder(tr, 0, topic))
+		}
+		sg.deliver(g, topic, 2, []byte("q2msg"))
+		synctest.Wait()
+		mid := sg.nextMsg
+		callErr = bt.f(cl, topic)
+		synctest.Wait()
+		g.Send(snref.MsgOnly(snref.PUBREL, mid))
+		synctest.Wait()
+		time.Sleep(time.Second)
+		cl.Close()
+		time.Sleep(3 * time.Second)
+		g.Close()
+		synctest.Wait()
+		evs = tr.Events()
+	})
+	witness := map[string]interface{}{"case": c.Desc, "trace": world.Strings(evs, 60)}
+	if callErr != nil {
+		c.Inconclusive("the call in between failed: " + callErr.Error())
+		return
+	}
+	pubrels, pubcomps := 0, 0
+	for _, e := range evs {
+		p, _ := snref.ParseLoose(e.B)
+		if e.Kind == world.SNOut && p != nil && p.Type == snref.PUBREL {
+			pubrels++
+		}
+		if e.Kind == world.SNIn && p != nil && p.Type == snref.PUBCOMP && pubrels > 0 {
+			pubcomps++
+		}
+	}
+	if pubrels == 0 {
+		c.Inconclusive("no PUBREL was sent")
+		return
+	}
+	if pubcomps < pubrels {
+		c.Violation("pubrel-unanswered|after-"+opKind(bt.name), fmt.Sprintf("the gateway's PUBREL, sent after the application's %s, was not answered with PUBCOMP", bt.name), witness)
+	}
+	c.Key("pubrel-between|%s|%v", bt.name, named)
+}
+
 func c17pubrel(t *testing.T, r *rt.Run, c *rt.Case, k int) {
+	if k >= 24 {
+		c17pubrelBetween(t, r, c, k-24)
+		return
+	}
 	variant := k % 4 // 0 single, 1 duplicated, 2 re-sent after PUBCOMP, 3 re-sent twice later
 	named := (k/4)%2 == 0
 	qosSub := uint8((k / 8) % 3)
